@@ -428,7 +428,7 @@ CHECKS["C11"] = {
                    "(native build) and through the encoding with concrete bytes; one disagreement makes the whole check "
                    "inconclusive",
           bounds="corpus of a few hundred to a few thousand ASCII texts", stubs=[]),
-    ] + [c11_h(n) for n in _C11] + [
+    ] + [c11_h(n) for n in _C11 if _C11[n][5] == "lang"] + [
         H("c11_ft_%d" % n, engine="smt", script="c11_dup.py", tiers=t, timeout=(900, 3600),
           functions=["varlink_parser::IDL::from_token (rustc MIR, every basic block reachable without unwinding)"],
           symbolic="a list of %d members: the kind (method / type / error) and the name (one of %d) of each are z3 variables" % (n, n),
@@ -451,6 +451,17 @@ CHECKS["C11"] = {
         "encoded; it is exercised by the native replay of witnesses only",
     ],
 }
+
+for _n in _C11:
+    if _C11[_n][5] == "progress":
+        _h = c11_h(_n)
+        _h["functions"] = ["varlink_parser/src/varlink_grammar.rs: every repetition (`*`, `+`, `**`, `++`) of the peg grammar, under "
+                           "rust-peg's recognition semantics (smt/enc.py)"]
+        CHECKS["C12"]["harnesses"].append(_h)
+CHECKS["C12"]["assumptions"].append(
+    "c12_progress_*: (z3, on the grammar source text) on no ASCII text of the stated shapes can the body of a repetition match "
+    "the empty string - the one way a rust-peg recogniser fails to terminate; recursion depth is bounded by the text length "
+    "since every recursive rule consumes a character first (checked: the encoder rejects left recursion)")
 
 # Duplicate detection / order of appearance in IDL::from_token (harness/parser/c11.rs, not mounted) was attempted
 # twice with Kani and is not part of the claim: see DESIGN.md section 3/C11.
